@@ -602,12 +602,12 @@ func init() {
 			"version provider, namespace provider and client registry; at every rewriter-inserted point (each function entry of pkg/**, each Lock / RLock / Unlock) a seeded " +
 			"schedule picks the next task, tasks whose TryLock fails are parked until an unlock. Oracles: result == result of the same call made alone beforehand; registry " +
 			"histories (invoke / return stamped with the scheduler's event counter) linearizable against a sequential map (porcupine); -race build with the baton hand-off " +
-			"hidden from the detector (a data race is a deterministic function of the plan); deadlock. Cold starts (64 / 4000 extra cases): each is the only run of a fresh process and " +
+			"hidden from the detector (a data race is a deterministic function of the plan); deadlock. Cold starts (64 / 1000 extra cases): each is the only run of a fresh process and " +
 			"calls nothing of the library before its tasks start, so first-use initialisation of process-wide state happens under concurrency. distinct_nontrivial = distinct interleavings (hash of the (task, site) sequence)",
 		Cases: func(master uint64, tier string) []Case {
 			n, cold := 1200, 64
 			if tier == "thorough" {
-				n, cold = 60000, 4000
+				n, cold = 60000, 1000
 			}
 			cs := seqCases(master, n, nil)
 			// cold starts: each is run by the driver as the only case of a fresh process
